@@ -26,7 +26,7 @@ TABLE_NAMES = {"opt_0": "opt0", "opt": "opt", "hopt": "opt", "hoptp": "optp", "o
 INDEX_NAMES = {"cm": "m", "cmem": "m", "K": "k", "mmax": "m"}
 
 
-def builder(table_fn):
+def builder(table_fn, extra=None):
     """PolyBuilder that canonicalises table subscripts and parameter-dict reads"""
     tmap = dict(TABLE_NAMES)
     if table_fn == "get_opt_0_table":
@@ -51,7 +51,12 @@ def builder(table_fn):
                             parts.append(pstr(pb.poly(ix)))
                     return patom(name + "".join(f"[{p}]" for p in parts))
         return None
-    return PolyBuilder(atom, INDEX_NAMES)
+    return PolyBuilder(atom, dict(INDEX_NAMES, **(extra or {})))
+
+
+def with_var(pb, var):
+    """the same builder with the comprehension variable named canonically"""
+    return PolyBuilder(pb.atom_fn, dict(pb.rename, **{var: "$j"}))
 
 
 def comp_of(node):
@@ -99,16 +104,61 @@ def table_sites(fn, pb):
             r = min_arg(n)
             if r:
                 elem, var, rng = r["comp"]
-                out.append(dict(elem=pkey(pb.poly(elem)), var=var, rng=tuple(pkey(pb.poly(a)) for a in rng),
+                out.append(dict(elem=pkey(with_var(pb, var).poly(elem)), var="$j", rng=tuple(pkey(pb.poly(a)) for a in rng),
                                 fallback=None if r["fallback"] is None else pkey(pb.poly(r["fallback"])),
                                 node=n, text=" ".join(ast.unparse(elem).split())))
     return out
 
 
-def decision_sites(fn, pb, live):
+def path_constants(fn, node):
+    """names that certainly hold an integer constant where `node` is evaluated: the node lies in the true branch
+    of `if name == c` (and the name is not assigned in that branch before it)"""
+    out = {}
+
+    def visit(stmts, env):
+        for s in stmts:
+            if any(x is node for x in ast.walk(s)):
+                if isinstance(s, ast.If):
+                    t = s.test
+                    e2 = dict(env)
+                    if isinstance(t, ast.Compare) and len(t.ops) == 1 and isinstance(t.ops[0], ast.Eq):
+                        a, b = t.left, t.comparators[0]
+                        if isinstance(b, ast.Name) and isinstance(a, ast.Constant):
+                            a, b = b, a
+                        if isinstance(a, ast.Name) and isinstance(b, ast.Constant) and isinstance(b.value, int) \
+                                and not isinstance(b.value, bool):
+                            e2[a.id] = b.value
+                    in_test = any(x is node for x in ast.walk(s.test))
+                    if in_test:
+                        out.update(env)
+                    elif any(x is node for b_ in s.body for x in ast.walk(b_)):
+                        stored = {x.id for b_ in s.body for x in ast.walk(b_) if isinstance(x, ast.Name) and isinstance(x.ctx, ast.Store)}
+                        visit(s.body, {k: v for k, v in e2.items() if k not in stored})
+                    else:
+                        visit(s.orelse, env)
+                elif isinstance(s, (ast.For, ast.While, ast.With, ast.Try)):
+                    stored = {x.id for x in ast.walk(s) if isinstance(x, ast.Name) and isinstance(x.ctx, ast.Store)}
+                    e3 = {k: v for k, v in env.items() if k not in stored}
+                    for fld in ("body", "orelse", "finalbody"):
+                        visit(getattr(s, fld, []) or [], e3)
+                else:
+                    out.update(env)
+                return
+    visit(fn.body, {})
+    return out
+
+
+def at_site(pb, fn, node):
+    """the builder with the constants the path to `node` establishes"""
+    pc = path_constants(fn, node)
+    return PolyBuilder(pb.atom_fn, dict(pb.rename, **pc)) if pc else pb
+
+
+def decision_sites(fn, pb0, live):
     """list_mem = [elem for j in range(..)] ... if min(list_mem) < fallback / jmin = argmin(list_mem)"""
     out = []
     comps = {}
+    pb = pb0
     for s in ast.walk(fn):
         if id(s) in live.dead_nodes:
             continue
@@ -130,19 +180,62 @@ def decision_sites(fn, pb, live):
                             isinstance(l.args[0], ast.Name) and l.args[0].id == name:
                         if use is None or n.lineno < use[0].lineno:
                             use = (n, n.test.ops[0], n.test.comparators[0])
-            out.append(dict(elem=pkey(pb.poly(elem)), var=var, rng=tuple(pkey(pb.poly(a)) for a in rng),
+            argvar = None
+            pb = at_site(pb0, fn, use[0] if use is not None else s)
+            for n in ast.walk(fn):
+                if isinstance(n, ast.Assign) and len(n.targets) == 1 and isinstance(n.targets[0], ast.Name) \
+                        and isinstance(n.value, ast.Call) and getattr(n.value.func, "id", None) == "argmin" and n.value.args \
+                        and isinstance(n.value.args[0], ast.Name) and n.value.args[0].id == name and s.lineno < n.lineno < nxt:
+                    argvar = n.targets[0].id
+            out.append(dict(elem=pkey(with_var(pb, var).poly(elem)), var="$j", rng=tuple(pkey(pb.poly(a)) for a in rng),
                             fallback=None if use is None else pkey(pb.poly(use[2])),
-                            op=None if use is None else type(use[1]).__name__, node=s,
+                            op=None if use is None else type(use[1]).__name__, node=s, argvar=argvar,
                             text=" ".join(ast.unparse(elem).split())))
+    # the candidate list written in place:  if min([...]) < fallback: jmin = argmin([...])  /  split = argmin([...])
+    tests = {}
+    for n in ast.walk(fn):
+        if isinstance(n, ast.If) and isinstance(n.test, ast.Compare) and len(n.test.ops) == 1 and id(n) not in live.dead_nodes:
+            tests[id(n.test.left)] = n
+    inplace = []
+    for n in ast.walk(fn):
+        if id(n) in live.dead_nodes:
+            continue
+        if isinstance(n, ast.Call) and getattr(n.func, "id", None) in ("argmin", "min") and len(n.args) == 1 and comp_of(n.args[0]):
+            elem, var, rng = comp_of(n.args[0])
+            use = tests.get(id(n)) if n.func.id == "min" else None
+            pb = at_site(pb0, fn, n)
+            argvar = None
+            if n.func.id == "argmin":
+                for a in ast.walk(fn):
+                    if isinstance(a, ast.Assign) and a.value is n and len(a.targets) == 1 and isinstance(a.targets[0], ast.Name):
+                        argvar = a.targets[0].id
+            inplace.append(dict(argvar=argvar, elem=pkey(with_var(pb, var).poly(elem)), var="$j", rng=tuple(pkey(pb.poly(a)) for a in rng),
+                                fallback=None if use is None else pkey(pb.poly(use.test.comparators[0])),
+                                op=None if use is None else type(use.test.ops[0]).__name__, node=n, kind=n.func.id, use=use,
+                                text=" ".join(ast.unparse(elem).split())))
+    for d in inplace:
+        if d["kind"] == "argmin":
+            # the selection inside a decision `if min(<the same candidates>) < fallback:` belongs to that decision
+            owner = [m for m in inplace if m["kind"] == "min" and m["use"] is not None and m["elem"] == d["elem"] and m["rng"] == d["rng"]
+                     and any(x is d["node"] for b_ in m["use"].body for x in ast.walk(b_))]
+            if owner:
+                owner[0]["argvar"] = d["argvar"]
+                continue
+        if d["kind"] == "min" and d["use"] is None:
+            continue        # a bare minimum (a table entry, a cost): not a decision
+        out.append({k: v for k, v in d.items() if k not in ("kind", "use")})
     # direct comparisons  `if A + tbl[..] < tbl[..]`  (hrevolve_recurse)
     for n in ast.walk(fn):
         if id(n) in live.dead_nodes:
             continue
         if isinstance(n, ast.If) and isinstance(n.test, ast.Compare) and len(n.test.ops) == 1 and \
-                isinstance(n.test.left, ast.BinOp) and any(isinstance(x, ast.Subscript) for x in ast.walk(n.test.left)) \
-                and isinstance(n.test.comparators[0], ast.Subscript):
+                isinstance(n.test.left, (ast.BinOp, ast.Subscript)) and any(isinstance(x, ast.Subscript) for x in ast.walk(n.test.left)) \
+                and isinstance(n.test.comparators[0], (ast.Subscript, ast.BinOp)) \
+                and any(isinstance(x, ast.Subscript) for x in ast.walk(n.test.comparators[0])) \
+                and not any(isinstance(x, ast.Call) for x in ast.walk(n.test)):
             names = {x.id for x in ast.walk(n.test) if isinstance(x, ast.Name)}
             if names & set(TABLE_NAMES):
+                pb = at_site(pb0, fn, n.test)
                 out.append(dict(direct=True, left=pkey(pb.poly(n.test.left)), right=pkey(pb.poly(n.test.comparators[0])),
                                 op=type(n.test.ops[0]).__name__, node=n, text=" ".join(ast.unparse(n.test).split())))
     return out
@@ -192,55 +285,98 @@ def run(chk, ctx):
         drel, dfn = funcs[dname]
         chk.files.add(trel)
         chk.files.add(drel)
-        pb = builder(tname)
-        tsites = table_sites(tfn, pb)
-        tdirect = direct_table(tfn, pb)
-        k = 0
-        for d in decision_sites(dfn, pb, live):
-            cons = f"{drel[:-3].replace('/', '.')}.{dname}#decision[{k}]<->{tname}"
-            k += 1
-            if d.get("direct"):
-                want = frozenset([d["left"], d["right"]])
-                ok = want in tdirect
-                opok = d["op"] in ("Lt", "LtE")
-                chk.decide("C07.TABLE", cons, True if (ok and opok) else (False if tdirect else None),
-                           f"`{d['text']}`: " + ("the table stores min of exactly these two terms" if ok else
-                           f"no table entry is the min of these two terms (table has {len(tdirect)} such entries)")
-                           + ("" if opok else f"; comparison {d['op']} is not consistent with taking the smaller term"),
-                           rel=drel, node=d["node"])
-                continue
-            match = [t for t in tsites if t["elem"] == d["elem"] and t["var"] == d["var"]]
-            if not match:
-                # same loop variable renaming tolerated: compare after renaming the comprehension variable
-                match = [t for t in tsites if t["elem"] == d["elem"]]
-            if not match:
-                chk.decide("C07.TABLE", cons, False if tsites else None,
-                           f"candidate `{d['text']}` is not an expression minimised by {tname} "
-                           f"(its candidates: {[t['text'] for t in tsites]})", rel=drel, node=d["node"])
-                continue
-            best = None
-            for t in match:
-                problems = []
-                if t["rng"] != d["rng"]:
-                    problems.append("candidate range differs from the table's")
-                if (t["fallback"] is None) != (d["fallback"] is None):
-                    if d["fallback"] is not None and t["fallback"] is None:
-                        problems.append("decision has a fallback the table entry does not take into account")
-                    elif d["fallback"] is None:
-                        problems.append("table takes a fallback into account that the decision ignores")
-                elif t["fallback"] is not None and t["fallback"] != d["fallback"]:
-                    problems.append(f"fallback term differs: table {pstr(dict(t['fallback']))} vs decision {pstr(dict(d['fallback']))}")
-                if d["fallback"] is not None and d["op"] not in ("Lt", "LtE"):
-                    problems.append(f"comparison {d['op']} picks the split when it is not better")
-                if best is None or len(problems) < len(best):
-                    best = problems
-            problems = best
-            chk.decide("C07.TABLE", cons, False if problems else True,
-                       f"candidate `{d['text']}` over range {ast.unparse(d['node'].value.generators[0].iter)}: "
-                       + ("; ".join(problems) if problems else "same candidate, range and fallback as the table"),
-                       rel=drel, node=d["node"])
-        if k == 0:
-            chk.decide("C07.TABLE", f"{dname}<->{tname}", None, "no decision site found", rel=drel, node=dfn)
+        def evaluate(extra):
+            res = []
+            pbT = builder(tname, extra)
+            pb = builder(tname)
+            tsites = table_sites(tfn, pbT)
+            tdirect = direct_table(tfn, pbT)
+            k = 0
+            for d in decision_sites(dfn, pb, live):
+                cons = f"{drel[:-3].replace('/', '.')}.{dname}#decision[{k}]<->{tname}"
+                k += 1
+                if d.get("direct"):
+                    want = frozenset([d["left"], d["right"]])
+                    ok = want in tdirect
+                    opok = d["op"] in ("Lt", "LtE")
+                    res.append((cons, True if (ok and opok) else (False if tdirect else None),
+                               f"`{d['text']}`: " + ("the table stores min of exactly these two terms" if ok else
+                               f"no table entry is the min of these two terms (table has {len(tdirect)} such entries)")
+                               + ("" if opok else f"; comparison {d['op']} is not consistent with taking the smaller term"),
+                               d["node"]))
+                    continue
+                match = [t for t in tsites if t["elem"] == d["elem"] and t["var"] == d["var"]]
+                if not match:
+                    # same loop variable renaming tolerated: compare after renaming the comprehension variable
+                    match = [t for t in tsites if t["elem"] == d["elem"]]
+                if not match:
+                    res.append((cons, False if tsites else None,
+                               f"candidate `{d['text']}` is not an expression minimised by {tname} "
+                               f"(its candidates: {[t['text'] for t in tsites]})", d["node"]))
+                    continue
+                best = None
+                for t in match:
+                    problems = []
+                    if t["rng"] != d["rng"]:
+                        problems.append("candidate range differs from the table's")
+                    if (t["fallback"] is None) != (d["fallback"] is None):
+                        if d["fallback"] is not None and t["fallback"] is None:
+                            problems.append("decision has a fallback the table entry does not take into account")
+                        elif d["fallback"] is None:
+                            problems.append("table takes a fallback into account that the decision ignores")
+                    elif t["fallback"] is not None and t["fallback"] != d["fallback"]:
+                        problems.append(f"fallback term differs: table {pstr(dict(t['fallback']))} vs decision {pstr(dict(d['fallback']))}")
+                    if d["fallback"] is not None and d["op"] not in ("Lt", "LtE"):
+                        problems.append(f"comparison {d['op']} picks the split when it is not better")
+                    if best is None or len(problems) < len(best):
+                        best = problems
+                problems = best
+                res.append((cons, False if problems else True,
+                           f"candidate `{d['text']}` over range {'range(' + ', '.join(pstr(dict(a)) for a in d['rng']) + ')'}: "
+                           + ("; ".join(problems) if problems else "same candidate, range and fallback as the table"),
+                           d["node"]))
+            if k == 0:
+                res.append((f"{dname}<->{tname}", None, "no decision site found", dfn))
+            return res
+
+        # the table builder's own loop variables may have any names: besides the customary ones, every assignment of
+        # them to the index roles (steps l, level k, slots m) is tried; the rule holds if one assignment makes every
+        # decision agree with the table
+        import itertools
+        def has_min(n):
+            return any(isinstance(x, ast.Call) and getattr(x.func, "id", None) == "min" for x in ast.walk(n))
+        tvars = sorted({n.target.id for n in ast.walk(tfn) if isinstance(n, ast.For) and isinstance(n.target, ast.Name) and has_min(n)}
+                       | {x.id for n in ast.walk(tfn) if isinstance(n, ast.For) and isinstance(n.target, ast.Tuple) and has_min(n)
+                          for x in n.target.elts if isinstance(x, ast.Name)})
+        comp_vars = {g_.target.id for n in ast.walk(tfn) if isinstance(n, ast.ListComp) for g_ in n.generators
+                     if isinstance(g_.target, ast.Name)}
+        tvars = [v for v in tvars if v not in comp_vars]
+        results = evaluate(None)
+        customary = set(tvars) <= {"l", "k", "m", "K", "cm", "cmem", "mmax", "j", "i", "_"}
+        if any(r[1] is not True for r in results):
+            roles_ = ["l", "k", "m"]
+            found = None
+            if len(tvars) > 5:
+                tvars = []
+            for sub in itertools.permutations(tvars, min(len(tvars), 3)):
+                for tgt in itertools.permutations(roles_, len(sub)):
+                    ren = dict(zip(sub, tgt))
+                    if all(a == b for a, b in ren.items()):
+                        continue
+                    cand = evaluate(ren)
+                    if cand and all(r[1] is True for r in cand):
+                        found = (ren, cand)
+                        break
+                if found:
+                    break
+            if found:
+                results = [(c, v, dt + f" [table loop variables read as {found[0]}]", nd) for c, v, dt, nd in found[1]]
+            elif not customary:
+                results = [(c, None if v is False else v,
+                            dt + " [not definite: the table builder's loop variables have names the rule cannot assign to index roles]", nd)
+                           for c, v, dt, nd in results]
+        for c, v, dt, nd in results:
+            chk.decide("C07.TABLE", c, v, dt, rel=drel, node=nd)
     # ---- USE
     reads = []
     for rel, q, f in repo.all_functions():
@@ -334,7 +470,7 @@ def homo(chk, ctx, rf):
             ok = True
             why = ""
             ren = dict(INDEX_NAMES)
-            ren["jmin"] = d["var"]
+            ren[d.get("argvar") or "jmin"] = d["var"]
             pbj = builder(tname)
             pbj.rename = ren
             for it in items:
